@@ -332,11 +332,23 @@ def check_open(rep, fx, of):
         pb = [x for x in expr_walk(e) if isinstance(x, tuple) and x[0] == 'call' and x[1].endswith('push_back')]
         ok = False
         why = 'the new stash is not old_stash.push_back(element)'
+        it = []
         if pb:
             x = pb[0]
             base, elem = x[2][0], x[2][1]
             base_ok = 'stash' in _s(base) and 'get_var' in _s(base)
             it = [y for y in expr_walk(elem) if isinstance(y, tuple) and y[0] == 'call' and y[1] == 'cell::Cell::insert_tag']
+            # on EVERY path the element is the tagged one: an untagged shortcut (say, when the offset is 0) lets a user tag of the
+            # same name on the input decide where close-bitstr puts the cursor
+            def _alts(e, d=0):
+                e = zstrip(e)
+                if isinstance(e, tuple) and e[0] == 'phi' and d < 4:
+                    return [a for x in e[1] for a in _alts(x, d + 1)]
+                return [e]
+            untagged = [a for a in _alts(elem) if not (isinstance(a, tuple) and a[0] == 'call' and a[1] == 'cell::Cell::insert_tag')]
+            if it and untagged:
+                it = []
+                why = 'on some path the stash element is the old input as it is (%s), not the input tagged with the old offset' % expr_str(untagged[0], -8)[:60]
             if it:
                 y = it[0]
                 has_in = 'bitstr_mod.input' in _s(y[2][0]) and 'get_var' in _s(y[2][0])
